@@ -122,6 +122,64 @@ def mapElements (h : HF2 K) (aabb : Aabb2 K) : List Nat :=
   (List.range' minX (maxX - minX)).filter fun i => h.cellKept refMins.y refMaxs.y i
 end HF2
 
+/-! ## 3-D heightfield: cell quantisation (`shape/heightfield3.rs`) -/
+
+/-- `heights` is the `nr × nc` matrix in column-major order (`heights[(i, j)] = hs[i + j * nr]`), `status[(i, j)]` the flag
+bits of cell `(i, j)` (`st[i + j * (nr - 1)]`; bit 0 zig-zag, bit 1 left triangle removed, bit 2 right triangle removed) -/
+structure HF3 (K : Type) where
+  nr : Nat
+  nc : Nat
+  hs : Array K
+  st : Array Nat
+  scale : V3 K
+
+namespace HF3
+/-- `nrows()` / `ncols()`: numbers of cells -/
+def nrows (h : HF3 K) : Nat := h.nr - 1
+def ncols (h : HF3 K) : Nat := h.nc - 1
+/-- `unit_cell_width()` = `1.0 / (heights.ncols() as Real - 1.0)`, `unit_cell_height()` likewise with `nrows` -/
+def cellW (h : HF3 K) : K := 1 / (Quant.ofInt (h.nc : Int) - 1)
+def cellH (h : HF3 K) : K := 1 / (Quant.ofInt (h.nr : Int) - 1)
+/-- `quantize_floor(val, cell_size, num_cells)` / `quantize_ceil` -/
+def quantFloor (val seg : K) (n : Nat) : Nat := (clampI (HF2.quantFloorU val seg) 0 ((n : Int) - 1)).toNat
+def quantCeil (val seg : K) (n : Nat) : Nat := (clampI (HF2.quantCeilU val seg) 0 (n : Int)).toNat
+/-- `unclamped_elements_range_in_local_aabb`: `((min_z, max_z), (min_x, max_x))` -/
+def unclampedRange (h : HF3 K) (aabb : Aabb3 K) : (Int × Int) × (Int × Int) :=
+  let mnx := aabb.mins.x / h.scale.x; let mnz := aabb.mins.z / h.scale.z
+  let mxx := aabb.maxs.x / h.scale.x; let mxz := aabb.maxs.z / h.scale.z
+  ((HF2.quantFloorU mnz h.cellH, HF2.quantCeilU mxz h.cellH), (HF2.quantFloorU mnx h.cellW, HF2.quantCeilU mxx h.cellW))
+/-- `cell_at_point` -/
+def cellAtPoint (h : HF3 K) (pt : V3 K) : Option (Nat × Nat) :=
+  let sx := pt.x / h.scale.x; let sz := pt.z / h.scale.z
+  if sx < -(lit 1 2) ∨ lit 1 2 < sx ∨ sz < -(lit 1 2) ∨ lit 1 2 < sz then none
+  else some (quantFloor sz h.cellH h.nrows, quantFloor sx h.cellW h.ncols)
+/-- `triangle_id(i, j, left)`; `num_triangles = nrows * ncols * 2` -/
+def triId (h : HF3 K) (i j : Nat) (left : Bool) : Nat :=
+  let tid := j * h.nrows + i
+  if left then tid else tid + h.nrows * h.ncols
+/-- one turn of the inner loop of `map_elements_in_local_aabb`: the triangle ids on which `f` is called for cell `(i, j)` -/
+def cellTris (h : HF3 K) (refMinY refMaxY : K) (i j : Nat) : List Nat :=
+  let status := h.st.getD (i + j * h.nrows) 6
+  if status / 2 % 2 = 1 ∧ status / 4 % 2 = 1 then [] else
+  match h.hs[i + j * h.nr]?, h.hs[i + 1 + j * h.nr]?, h.hs[i + (j + 1) * h.nr]?, h.hs[i + 1 + (j + 1) * h.nr]? with
+  | some y00, some y10, some y01, some y11 =>
+    if (refMaxY < y00 ∧ refMaxY < y10 ∧ refMaxY < y01 ∧ refMaxY < y11) ∨
+       (y00 < refMinY ∧ y10 < refMinY ∧ y01 < refMinY ∧ y11 < refMinY) then [] else
+    (if status / 2 % 2 = 1 then [] else [h.triId i j true]) ++ (if status / 4 % 2 = 1 then [] else [h.triId i j false])
+  | _, _, _, _ => []
+/-- `map_elements_in_local_aabb`: the triangle ids on which `f` is called, in order -/
+def mapElements (h : HF3 K) (aabb : Aabb3 K) : List Nat :=
+  let mnx := aabb.mins.x / h.scale.x; let mny := aabb.mins.y / h.scale.y; let mnz := aabb.mins.z / h.scale.z
+  let mxx := aabb.maxs.x / h.scale.x; let mxy := aabb.maxs.y / h.scale.y; let mxz := aabb.maxs.z / h.scale.z
+  if mxx ≤ -(lit 1 2) ∨ mxz ≤ -(lit 1 2) ∨ lit 1 2 ≤ mnx ∨ lit 1 2 ≤ mnz then [] else
+  let minX := quantFloor mnx h.cellW h.ncols
+  let minZ := quantFloor mnz h.cellH h.nrows
+  let maxX := quantCeil mxx h.cellW h.ncols
+  let maxZ := quantCeil mxz h.cellH h.nrows
+  (List.range' minX (maxX - minX)).flatMap fun j =>
+    (List.range' minZ (maxZ - minZ)).flatMap fun i => h.cellTris mny mxy i j
+end HF3
+
 /-! ## the cell walk of the 2-D `cast_shapes_heightfield_shape` -/
 namespace HF2
 /-- `segment_at(i).is_some()` -/
